@@ -27,6 +27,14 @@ def conv_long(x):
     return x - (1 << 64) if x >> 63 else x
 
 
+def cast_long(x):
+    """C `(long) double` on x86-64: out-of-range / NaN give LONG_MIN (cvttsd2si)"""
+    x = float(x)
+    if x != x or x >= 9.223372036854775807e18 or x < -9.223372036854775808e18:
+        return -(1 << 63)
+    return int(x)
+
+
 def conv_int(x):
     x = int(x) & 0xFFFFFFFF
     return x - (1 << 32) if x >> 31 else x
@@ -86,8 +94,21 @@ _assign = re.compile(r"^(\s*)(\w+)\s*(\^=|\+=|-=|\*=|=)\s*(.*)$")
 _return = re.compile(r"^(\s*)return\b\s*(.*)$")
 
 
+def _strip_comment(line):
+    q = None
+    for k, ch in enumerate(line):
+        if q:
+            if ch == q:
+                q = None
+        elif ch in "'\"":
+            q = ch
+        elif ch == "#":
+            return line[:k].rstrip()
+    return line
+
+
 def _expr(e):
-    e = re.sub(r"<long>\s*", "int", e) if "<long>" in e else e
+    e = re.sub(r"<long>\s*(\w+\([^()]*\))", r"cast_long(\1)", e)
     if "<long>" in e or "<" + "int>" in e:
         raise Unknown(e)
     e = e.replace("PyBytes_GET_SIZE(", "len(").replace("PyByteArray_GET_SIZE(", "len(")
@@ -111,7 +132,7 @@ def translit(src: str) -> str:
         "import array",
         "from math import cos, acos, fabs, pi",
         "from math import floor as _mfloor",
-        "from pyx_translit import conv_long, conv_int, conv_uchar, conv_char, conv_ssize, conv_double, conv_bint, conv_str, conv_obj",
+        "from pyx_translit import cast_long, conv_long, conv_int, conv_uchar, conv_char, conv_ssize, conv_double, conv_bint, conv_str, conv_obj",
         "def c_floor(x):",
         "    return float(_mfloor(x))",
         "def abs(x):",
@@ -148,7 +169,10 @@ def translit(src: str) -> str:
         while line.count("(") + line.count("[") > line.count(")") + line.count("]") and i < len(lines):
             line = line + " " + lines[i].strip()
             i += 1
+        line = _strip_comment(line)
         s = line.strip()
+        if not s:
+            continue
         indent = re.match(r"^(\s*)", line).group(1)
         if fn_indent is not None and len(indent) <= len(fn_indent) and not _def.match(line):
             fn_ret, fn_indent, typed = None, None, {}
@@ -182,6 +206,15 @@ def translit(src: str) -> str:
                 out.append("%s%s = 0" % (ind, name) if conv not in ("conv_obj",) else "%s%s = None" % (ind, name))
             else:
                 out.append("%s%s = %s(%s)" % (ind, name, conv, _expr(init)))
+            continue
+        mm = re.match(r"^(\s*)cdef\s+(%s)\s+(\w+(?:\s*,\s*\w+)+)\s*$" % TYPE_RE, line)
+        if mm:
+            ind, ctype, names = mm.groups()
+            conv = CONV[ctype]
+            for nm in [x.strip() for x in names.split(",")]:
+                if conv != "conv_obj":
+                    typed[nm] = conv
+                out.append("%s%s = %s" % (ind, nm, "0" if conv != "conv_obj" else "None"))
             continue
         m = _cdef_untyped.match(line)
         if m and not _cdef_var.match(line):
